@@ -90,7 +90,9 @@ pub fn run(seed: u64, n: usize, outdir: &str, _corpus: Option<&str>) -> std::io:
         model_def.push_str("0.5\tU0:名詞\n"); // a unigram line (no '/')
         let factor = *rng.pick(&[1i64, 8, 100, 700, 800]);
         let (mut br, mut bl, mut bc) = (vec![], vec![], vec![]);
-        let (fd, rt, lt, md) = (feature_def.clone(), rtxt.clone(), ltxt.clone(), model_def.clone());
+        // each of the four files may come with CRLF line ends
+        let dos = |rng: &mut Rng, t: &String| -> String { if rng.chance(1, 5) { t.replace('\n', "\r\n") } else { t.clone() } };
+        let (fd, rt, lt, md) = (dos(&mut rng, &feature_def), dos(&mut rng, &rtxt), dos(&mut rng, &ltxt), dos(&mut rng, &model_def));
         let out = {
             let (br, bl, bc) = (&mut br, &mut bl, &mut bc);
             guarded(std::panic::AssertUnwindSafe(move || vibrato::mecab::generate_bigram_info(fd.as_bytes(), rt.as_bytes(), lt.as_bytes(), md.as_bytes(), factor as f64, br, bl, bc)))
